@@ -39,6 +39,14 @@ func RunRace(seed int64, dur time.Duration) (out []Ev) {
 		c.CreateColumn("s", column.ForString())
 		c.CreateColumn("e", column.ForEnum())
 		c.CreateColumn("b", column.ForBool())
+		// user-supplied merge functions on a record and on a string column (blocks commit in parallel: so do their merges)
+		c.CreateColumn("r", column.ForRecord(func() *Rec { return new(Rec) }, column.WithMerge(func(v, x *Rec) *Rec { v.V += x.V; return v })))
+		c.CreateColumn("m", column.ForString(column.WithMerge(func(v, d string) string {
+			if len(v) > 6 {
+				return d
+			}
+			return v + d
+		})))
 		c.CreateIndex("big", "a", func(r column.Reader) bool { return r.Int() >= 5 })
 		c.CreateSortIndex("sorted", "s")
 	}
@@ -73,7 +81,25 @@ func RunRace(seed int64, dur time.Duration) (out []Ev) {
 			}()
 		}
 	}
-	maxRow := func() uint32 { return uint32(P.Count() + 64) }
+	// three full blocks from the start: commits to different blocks run in parallel (only their block latches differ)
+	P.Query(func(txn *column.Txn) error {
+		for i := 0; i < 3*16384; i++ {
+			txn.Insert(func(r column.Row) error {
+				r.SetInt64("a", int64(i%10))
+				if i%2 == 0 {
+					r.SetString("s", "x")
+				}
+				return nil
+			})
+		}
+		return nil
+	})
+	maxRow := func() uint32 {
+		if n := uint32(P.Count() + 64); n > 3*16384 {
+			return n
+		}
+		return 3*16384 + 64
+	}
 	// inserters: grow across blocks (each commit of a fresh block grows every column)
 	spawn(2, func(lr *rand.Rand) {
 		P.Query(func(txn *column.Txn) error {
@@ -140,6 +166,23 @@ func RunRace(seed int64, dur time.Duration) (out []Ev) {
 			r.SetFloat64("f", 1.5)
 			r.SetEnum("e", []string{"x", "y", "z"}[lr.Intn(3)])
 			r.SetBool("b", lr.Intn(2) == 0)
+			r.MergeRecord("r", &Rec{V: 1})
+			r.MergeString("m", "ab")
+			return nil
+		})
+	})
+	// merges into rows of two or three different blocks in one transaction, beside the same from others
+	spawn(2, func(lr *rand.Rand) {
+		n := int(maxRow())
+		P.Query(func(txn *column.Txn) error {
+			for k := 0; k < 3; k++ {
+				txn.QueryAt(uint32(lr.Intn(n)), func(r column.Row) error {
+					r.MergeRecord("r", &Rec{V: 2})
+					r.MergeString("m", "c")
+					r.MergeInt64("a", 1)
+					return nil
+				})
+			}
 			return nil
 		})
 	})
@@ -151,6 +194,8 @@ func RunRace(seed int64, dur time.Duration) (out []Ev) {
 			r.String("s")
 			r.Enum("e")
 			r.Bool("b")
+			r.Record("r")
+			r.String("m")
 			return nil
 		})
 	})
